@@ -49,7 +49,9 @@ def draws(draw, item):
             "noise": draw(st.sampled_from([0.0, 0.03])), "contact": draw(st.sampled_from([False, True])), "gapfrac": draw(st.sampled_from([1.0, 0.0, 0.5])), "registry": [draw(st.sampled_from([0.0, 0.5])), draw(st.sampled_from([0.0, 0.5]))], "perm": draw(gm.seeds), "noise_seed": draw(gm.seeds), "sbc_seed": draw(st.integers(0, 10 ** 6)),
             # where the stack sits relative to its cell (and how the cell is oriented) is not part of the crystal: rigid motion of
             # cell + atoms, and a translation of the atoms alone (a quarter of them far: the stack then lies outside its cell)
-            "rigid": draw(st.one_of(st.none(), gm.presentations(permute=False)))}
+            "rigid": draw(st.one_of(st.none(), gm.presentations(permute=False))),
+            # a stack that is not periodic along its normal may describe that direction by a zero cell vector (ASE's form without vacuum)
+            "zero_c": draw(st.sampled_from([False, False, True]))}
 
 
 def items(tier):
@@ -151,6 +153,11 @@ def run_case(desc):
         r = np.random.RandomState(desc["noise_seed"])
         d = r.normal(size=(n, 3)); d /= np.linalg.norm(d, axis=1)[:, None]
         s2.set_positions(s2.get_positions() + d * desc["noise"] * r.uniform(0, 1, (n, 1)))
+    if desc.get("zero_c") and not desc["pbcz"]:
+        cz = np.asarray(s2.get_cell()).copy()
+        cz[2] = 0.0
+        s2.set_cell(cz, scale_atoms=False)
+        out.cls("cell-normal=zero")
     if desc.get("rigid"):
         rg = desc["rigid"]
         Q = gc.quat_to_rot(rg["quat"])
